@@ -81,6 +81,8 @@ def run_audit(pid, mod, load_fn, max_patches=None):
                         mod.run(prog, r, 'thorough', 'quick')
                     except AnchorMissing as e:
                         r.anchor_missing('anchor', e)
+                    except Exception as e:
+                        r.ob('engine', 'rule-evaluation', False, 'the rules could not be evaluated on this tree (%s: %s)' % (type(e).__name__, e))
                     fails = ['rule=%s instance=%s: %s' % (o['rule'], o['key'], o['detail'][:160]) for o in r.obligations if not o['ok']]
                     known = {k[2] for k in __import__('report').load_known() if k[0] == pid}
                     fails_new = [f for f in fails if not any(('instance=%s:' % k) in f for k in known)]
